@@ -1,8 +1,18 @@
 (* Properties_C19: statements only.  C19 -- URL parsing: strict acceptance,
-   canonical and idempotent output. *)
+   canonical and idempotent output.
+
+   Conventions: [s] is the NUL-free input text ([nz s]: every byte in 1..255),
+   [tail] whatever lies behind its terminating NUL in memory; the parser's
+   argument is the memory [s ++ 0 :: tail].  [UOob] = an access outside an
+   allocation (or a NULL dereference), [UErr rv] = the function returned rv,
+   [UVal u] = success.  The flag record [fx] selects, per known defect of the
+   pinned tree, the pinned (false) or the repaired (true) code; which one the
+   current source has is read from it on every run (the URL_FIX_ constants of Gen/Consts.v)
+   and that is what the correspondence run executes. *)
 From Coq Require Import List Arith NArith Bool.
 From NngV Require Import Gen.Consts Base.ListX Url.Utf8Model Url.Utf8Spec Url.Utf8Proofs
-  Url.CanonModel Url.CanonSpec Url.UrlParseModel Url.UrlSpec.
+  Url.CanonModel Url.CanonPure Url.CanonSpec Url.CanonRefine Url.CanonProofs
+  Url.UrlParseModel Url.UrlSpec Url.UrlParseProofs.
 Import ListNotations.
 Local Open Scope N_scope.
 
@@ -10,8 +20,7 @@ Local Open Scope N_scope.
 
 (* The repaired validator (accumulate, then advance) accepts exactly the
    strings of the RFC 3629 grammar: no overlong form, no surrogate, nothing
-   above U+10FFFF, no stray continuation byte, no truncated sequence.  [l] is
-   the NUL-free text, [tail] whatever follows the NUL in the buffer. *)
+   above U+10FFFF, no stray continuation byte, no truncated sequence. *)
 Theorem utf8_validate_iff_wf : forall l tail, Forall byte_nz l ->
   (utf8_validate true (l ++ 0 :: tail) = Some true <-> wf_utf8 l).
 Proof. exact utf8_validate_fixed_iff_wf. Qed.
@@ -24,7 +33,7 @@ Proof. exact utf8_validate_total. Qed.
 Print Assumptions utf8_validate_in_bounds.
 
 (* the validator of the pinned tree (advance, then accumulate) accepts the
-   overlong E0 9F BF and the surrogate ED A0 80 followed by 'x' *)
+   overlong E0 9F BF (and the surrogate ED A0 80 'x': utf8_pinned_accepts_surrogate) *)
 Theorem utf8_refuted :
   exists l, Forall byte_nz l /\ utf8_validate false (l ++ [0]) = Some true /\ ~ wf_utf8 l.
 Proof. exact utf8_validate_pinned_refuted. Qed.
@@ -35,6 +44,163 @@ Theorem wf_utf8b_is_wf_utf8 : forall l, wf_utf8b l = true <-> wf_utf8 l.
 Proof. exact wf_utf8b_iff. Qed.
 Print Assumptions wf_utf8b_is_wf_utf8.
 
+(* ---- (c) totality and bounds -------------------------------------------- *)
+
+(* nni_url_canonify_uri on any NUL-terminated buffer: the three in-place
+   passes (explicit src/dst indices, every read and write checked) never
+   leave the buffer and never run out of fuel, keep its length, and compute
+   exactly the pure function [canon_pure] on the text; NNG_EINVAL exactly
+   when that is None.  Both validator variants. *)
+Theorem canon_total_in_bounds : forall fx s tail, Forall byte_nz s ->
+  match canon_pure fx s with
+  | Some out => exists tail', canonify fx (s ++ 0 :: tail) = Some (NNG_OK, out ++ 0 :: tail') /\
+                              length (out ++ 0 :: tail') = length (s ++ 0 :: tail)
+  | None => canonify fx (s ++ 0 :: tail) = Some (NNG_EINVAL, s ++ 0 :: tail)
+  end.
+Proof. exact canonify_refines. Qed.
+Print Assumptions canon_total_in_bounds.
+
+(* nng_url_parse on any NUL-terminated input, any flags, any resolver oracle:
+   no checked access fails (scheme scan, table lookup, copy into u_static or
+   the heap block, the memmove of the authority, '@', tolower, canonify, the
+   query/fragment split, brackets, host length, port) ... *)
+Theorem parse_total_in_bounds : forall fx resolver s tail, nz s ->
+  url_parse fx resolver (s ++ 0 :: tail) <> UOob.
+Proof. exact url_parse_total. Qed.
+Print Assumptions parse_total_in_bounds.
+
+(* ... and on success every accessor, nng_url_sprintf and (repaired)
+   nng_url_clone stay inside the URL's storage, whose size is the inline 128
+   bytes or the recorded heap size *)
+Theorem parse_result_in_bounds : forall fx resolver s tail u, nz s ->
+  url_parse fx resolver (s ++ 0 :: tail) = UVal u ->
+  buf_ok u /\ exists v, url_view u = Some v /\ v_scheme v = u_scheme u.
+Proof.
+  intros fx resolver s tail u Hs E. pose proof (url_parse_spec fx resolver s tail Hs) as H.
+  rewrite E in H. destruct H as (len & rest & v & _ & _ & _ & Hv & Hsc & Hb & _). eauto.
+Qed.
+Print Assumptions parse_result_in_bounds.
+
+(* ---- (b) strict acceptance ---------------------------------------------- *)
+
+(* with the exact table lookup, success means the text before "://" EQUALS a
+   table scheme (the generated table: url_consts_match below) *)
+Theorem parse_scheme_exact : forall fx resolver s tail u, nz s -> fx_scheme fx = true ->
+  url_parse fx resolver (s ++ 0 :: tail) = UVal u ->
+  In (u_scheme u) schemes /\ exists rest, s = u_scheme u ++ [58; 47; 47] ++ rest.
+Proof. exact url_parse_scheme_exact. Qed.
+Print Assumptions parse_scheme_exact.
+
+(* the pinned lookup (strncmp with the scanned length) accepts "ht://h/" as http *)
+Theorem scheme_prefix_refuted :
+  exists u, url_parse fx_pinned no_resolver ([104; 116; 58; 47; 47; 104; 47] ++ [0]) = UVal u /\
+            u_scheme u = http_ /\ firstn 2 (u_scheme u) = [104; 116] /\ length (u_scheme u) = 4%nat.
+Proof. exact scheme_prefix_witness. Qed.
+Print Assumptions scheme_prefix_refuted.
+
+(* parse_accepts_only, the part that is proved (hence _partial): for an
+   accepted URL of a scheme with an authority, the input is
+   scheme "://" authority rem with the authority free of '/', '?', '#'; the
+   authority is [userinfo "@"] hostport with the userinfo returned verbatim
+   (a second '@' is rejected: the host text then contains none -- see
+   parse_userinfo_spec); the host returned is a piece of the lower-cased
+   hostport and is shorter than 256 bytes; rem canonicalises (canon_pure, so
+   every '%' in it is followed by two hex digits) to the text
+   path ++ ["?" query] ++ ["#" fragment] that is returned, and the path
+   returned is its part before the first '?' or '#'.
+   MISSING for the full statement of DESIGN section 5: (i) the bracket and
+   port clauses are proved as in-bounds/shape facts only (parse_hostport_spec:
+   an IPv6 literal must be closed and followed by ':' or the end, the host
+   name is what precedes ':'), the value of the port (strtol reading / the
+   resolver oracle) is not tied to UrlSpec.port_numeric by a theorem -- the
+   check's oracle compares it on every run; (ii) "the DECODED path is
+   wf_utf8": proved is that the stored path itself is wf_utf8 (repaired
+   validator; parse_canonical below) and that every escape left in it is an
+   upper-case escape of a non-unreserved byte below 0x80 (P1), from which the
+   decoded statement follows by a list lemma that is not proved here. *)
+Theorem parse_accepts_only_partial : forall fx resolver s tail u, nz s ->
+  url_parse fx resolver (s ++ 0 :: tail) = UVal u -> parse_post fx s u.
+Proof.
+  intros fx resolver s tail u Hs E. pose proof (url_parse_spec fx resolver s tail Hs) as H.
+  rewrite E in H. exact H.
+Qed.
+Print Assumptions parse_accepts_only_partial.
+
+(* ---- (d) canonical form --------------------------------------------------- *)
+
+(* the canonicaliser's result: every '%' is followed by two upper-case hex
+   digits and escapes no unreserved character; no "//" and no "/." or "/.."
+   segment before the first '?' or '#' *)
+Theorem canon_canonical : forall fx s t, canon_pure fx s = Some t ->
+  escapes_canonical t = true /\ no_double_slash (path_part t) = true /\ no_dot_segments (path_part t) = true.
+Proof. exact canon_pure_canonical. Qed.
+Print Assumptions canon_canonical.
+
+(* an accepted URL (scheme with an authority): canonical path, lower-case
+   host shorter than 256 bytes; with the repaired validator the path is
+   well-formed UTF-8 *)
+Theorem parse_canonical : forall fx resolver s tail u v, nz s ->
+  url_parse fx resolver (s ++ 0 :: tail) = UVal u -> is_path_only (u_scheme u) = false ->
+  url_view u = Some v ->
+  escapes_canonical (v_path v) = true /\ no_double_slash (v_path v) = true /\
+  no_dot_segments (v_path v) = true /\
+  (exists host, v_hostname v = Some host /\ host_lower host = true /\ (length host < HOST_MAX)%nat) /\
+  (fx_utf8 fx = true -> wf_utf8 (v_path v)).
+Proof. exact url_parse_canonical. Qed.
+Print Assumptions parse_canonical.
+
+(* ---- (e) idempotence ------------------------------------------------------ *)
+Theorem canon_idempotent : forall fx s t, canon_pure fx s = Some t -> canon_pure fx t = Some t.
+Proof. exact canon_pure_idempotent. Qed.
+Print Assumptions canon_idempotent.
+
+(* parse_sprintf_roundtrip, the part that is proved: the text
+   path ["?" query] ["#" fragment] of an accepted URL -- which is what
+   nng_url_sprintf prints after the authority -- canonicalises to itself and
+   splits into the same path.
+   MISSING for the full statement (parse (sprintf u) = Some u' with equal
+   scheme, host, port, path, query, fragment): the authority part -- that
+   re-reading "[" host "]" / host and ":" decimal-port gives the same host and
+   port -- is not proved; the check compares the round trip on every accepted
+   URL it generates. *)
+Theorem parse_sprintf_roundtrip_partial : forall fx resolver s tail u v, nz s ->
+  url_parse fx resolver (s ++ 0 :: tail) = UVal u -> is_path_only (u_scheme u) = false ->
+  url_view u = Some v ->
+  let text := v_path v ++ qf_text (v_query v) (v_fragment v) in
+  canon_pure (fx_utf8 fx) text = Some text /\ path_part text = v_path v.
+Proof. exact url_parse_text_stable. Qed.
+Print Assumptions parse_sprintf_roundtrip_partial.
+
+(* ---- clone ------------------------------------------------------------------ *)
+
+(* the repaired clone, for every URL whose storage is the inline buffer or a
+   heap block of the recorded size (every URL parse returns:
+   parse_result_in_bounds): all copies in bounds, rv 0, and the clone has the
+   same storage contents and component offsets -- in the model the same
+   value, so every accessor and sprintf agree.  A model value cannot share
+   storage; that the C clone shares nothing is what the correspondence run
+   observes (the original is freed before the clone is read, under ASan). *)
+Theorem clone_equal_independent : forall u, buf_ok u -> url_clone true true u = UVal (0, Some u).
+Proof. exact url_clone_equal. Qed.
+Print Assumptions clone_equal_independent.
+
+(* pinned: the clone of a URL longer than the inline buffer fails with rv 1
+   (allocation of dst->u_bufsz = 0 bytes) while the repaired clone succeeds *)
+Theorem clone_long_refuted :
+  exists u, url_parse fx_pinned no_resolver (long_url ++ [0]) = UVal u /\ buf_ok u /\
+            url_clone false false u = UVal (1, None) /\ url_clone true true u = UVal (0, Some u).
+Proof. exact clone_long_witness. Qed.
+Print Assumptions clone_long_refuted.
+
+(* pinned: the clone of ipc://a has a (wild) host-name pointer although the
+   original's is NULL; following it leaves the allocation *)
+Theorem clone_null_host_refuted :
+  exists u c, url_parse fx_pinned no_resolver ([105; 112; 99; 58; 47; 47; 97] ++ [0]) = UVal u /\
+              u_hostname u = None /\ url_clone false false u = UVal (0, Some c) /\
+              is_wild (u_buf c) (u_hostname c) = true /\ url_view c = None.
+Proof. exact clone_null_host_witness. Qed.
+Print Assumptions clone_null_host_refuted.
+
 (* ---- the literals of the model are those of the current source ---------- *)
 Theorem url_consts_match :
   schemes = URL_SCHEMES /\ default_ports = URL_DEFAULT_PORTS /\
@@ -42,5 +208,19 @@ Theorem url_consts_match :
 Proof. repeat split; reflexivity. Qed.
 Print Assumptions url_consts_match.
 
+(* ---- non-vacuity ------------------------------------------------------------ *)
 Example utf8_nonvacuous : Forall byte_nz [226; 130; 172] /\ wf_utf8 [226; 130; 172].
 Proof. split; [repeat constructor | apply wf_utf8b_iff; reflexivity]. Qed.
+
+(* an accepted URL with userinfo, upper-case host, port, dot segments, a
+   decodable escape, query and fragment, under the repaired flags *)
+Example parse_nonvacuous :
+  let s := [104;116;116;112;58;47;47;85;64;72;58;56;48;47;97;47;46;46;47;37;55;101;63;113;35;102] in
+  nz s /\ exists u v, url_parse fx_repaired no_resolver (s ++ [0]) = UVal u /\ is_path_only (u_scheme u) = false /\
+    url_view u = Some v /\ v_path v = [47; 126] /\ v_hostname v = Some [104] /\ v_port v = 80 /\
+    v_userinfo v = Some [85] /\ v_query v = Some [113] /\ v_fragment v = Some [102].
+Proof.
+  cbv zeta. split.
+  - unfold nz. repeat constructor.
+  - vm_compute. eexists. eexists. repeat split.
+Qed.
